@@ -175,6 +175,7 @@ class ModelBuild:
         self.stale_dirs = set(v.remove_empty_dirs(self.prev.created_dirs))
         self.v = v
         self.in_progress = set()
+        self.in_progress_builders = {}     # target path -> ModelBuilder of the function that is building it
         self.claimed_files = set()
         self.claimed_subs = set()
         # races only (C08): a call whose reusable record contains a key that a concurrent task has claimed in the
@@ -380,6 +381,11 @@ class ModelBuilder:
         while not v.exists(d):
             if d == mb.cache_path:
                 setup_fail(NotADirectoryError(d))
+            ipb = mb.in_progress_builders.get(d)
+            if ipb is not None and ipb.pending is not None:
+                # a target that is being built right now and has already been written is a regular file on disk, although
+                # queries do not see it: no directory can be created there (only generated *after* the write statement)
+                setup_fail(NotADirectoryError(d))
             to_make.append(d)
             nd = os.path.dirname(d)
             if nd == d:
@@ -406,6 +412,7 @@ class ModelBuilder:
         mb.claimed_files.add(p)
         mb.in_progress.add(p)
         sub = ModelBuilder(mb, node)
+        mb.in_progress_builders[p] = sub
         try:
             r = func(sub, p, *copy.deepcopy(a), **copy.deepcopy(kw))
             try:
@@ -431,6 +438,7 @@ class ModelBuilder:
             raise
         finally:
             mb.in_progress.discard(p)
+            mb.in_progress_builders.pop(p, None)
             sub.finished = True
 
 
